@@ -77,6 +77,14 @@ class Tx(ast.NodeTransformer):
             return ast.copy_location(call, node)
         return node
 
+    def visit_While(self, node):
+        """every iteration of a while loop ticks a per-path counter: a loop that makes no solver
+        decision (all values concrete) would otherwise never hit the unwinding bound"""
+        self.generic_visit(node)
+        tick = ast.Expr(value=ast.Call(func=ast.Name(id='__sx_tick__', ctx=ast.Load()), args=[], keywords=[]))
+        node.body = [ast.copy_location(tick, node)] + node.body
+        return node
+
     def visit_JoinedStr(self, node):
         """f'...{x}...' -> __sx_fstr__('...', (x, conv, spec), ...) so that symbolic strings survive"""
         self.generic_visit(node)
